@@ -62,6 +62,19 @@ def start_file(path, per_condition_timeout=60, env=None, only=None, max_parallel
     return h
 
 
+def start_many(specs, max_parallel=16, env=None):
+    """specs: [(path, per_condition_timeout)]; one shared pool of CrossHair processes."""
+    h = Handle()
+    h.max_parallel = max_parallel
+    for path, timeout in specs:
+        for name, line in conditions_in(path):
+            h.pending.append((path, name, line, timeout, env))
+    # longest budgets first so the pool drains evenly
+    h.pending.sort(key=lambda t: -t[3])
+    _pump(h)
+    return h
+
+
 def _pump(h):
     running = [p for p in h.procs if p["proc"].poll() is None]
     while h.pending and len(running) < h.max_parallel:
